@@ -9,3 +9,7 @@ package keystore
 //@   trusted
 //@   pure
 //@   ensures result == ghostOf[*AddrManager]("curKS", km)
+
+//@ func (*KeystoreManager).GetManagedAddressByScriptHash
+//@   trusted
+//@   requires km != nil
